@@ -28,7 +28,8 @@ class World:
                        "refused_diagonal", "unaligned_shift", "complex_spectrum", "main_axis_start_nonzero", "propagation_matrix_with_corrections", "step_ratio_not_an_exact_integer",
                        "two_propagation_results_kept", "long_shift_just_off_a_whole_coarse_step",
                        "storage_replaced_by_another_size", "propagation_continued_from_earlier_result",
-                       "shifted_start_with_more_than_100_points"]
+                       "shifted_start_with_more_than_100_points", "axis_shifted_after_the_propagator_was_built",
+                       "step_long_on_the_scale_of_the_rates"]
     required_faults = ["refused_diagonal_set", "refused_bad_assignment"]
     components = {
         "real": ["quantarhei RateMatrix.set_rate", "PopulationPropagator.propagate",
@@ -58,7 +59,15 @@ class World:
             Nt = rng.choice([100, 200])      # room for coarse steps whose floating-point ratio to dt is not an exact integer
         # ||K|| dt between 1e-3 and ~0.6
         kscale = (10 ** rng.uniform(-3, -0.5)) / dt
-        long_fine = rng.random() < 0.06
+        coarse = rng.random() < 0.08
+        if coarse:
+            # steps that are long on the scale of the fastest depopulation time (||K|| dt between 1 and 2.5): the rigorous
+            # remainder bound is loose there, the actual truncation error of the fourth-order expansion is the yardstick
+            kscale = rng.uniform(2.0, 3.0) / dt
+            Nt = 8
+            shape = "generic"
+            N = max(N, 3)
+        long_fine = (not coarse) and rng.random() < 0.06
         if long_fine:
             dt, Nt, t0 = 2.0 ** -10, 135168, 0.0
             kscale = rng.uniform(0.3, 3.0) / 128.0        # the dynamics is still alive at t ~ 100
@@ -84,8 +93,10 @@ class World:
                 i = rng.randrange(N)
                 j = rng.randrange(N) if rng.random() < 0.9 else i
                 ops.append({"op": "set_rate", "i": i, "j": j, "v": v})
-            elif r < 0.6:
+            elif r < 0.57:
                 ops.append({"op": "make_prop"})
+            elif r < 0.6:
+                ops.append({"op": "shift_axis"})
             elif r < 0.8:
                 p0 = [round(rng.random(), 4) for _ in range(N)]
                 if rng.random() < 0.3:
@@ -189,6 +200,7 @@ class World:
         if t0 != 0.0:
             ctx.probe("main_axis_start_nonzero")
         axis = TimeAxis(t0, Nt, dt)
+        shifted = [False]
         prop = None
         K_at_make = None
         semantics = {"live": 0, "snapshot": 0}     # a propagator either follows later edits or keeps its rates: not both
@@ -261,6 +273,16 @@ class World:
                     check_matrix("after op %d" % idx)
                     ctx.ev(idx, kind, i, j, v, fingerprint(rm.data))
                     ctx.cov(N, "set_rate", min(edits, 6), prop is not None)
+            elif kind == "shift_axis":
+                # the caller moves the (shared) time axis to start at zero after the propagator was built on it
+                if t0 > 0.0 and prop is not None and not shifted[0]:
+                    axis.shift_to_zero()
+                    t0 = 0.0
+                    shifted[0] = True
+                    ctx.probe("axis_shifted_after_the_propagator_was_built")
+                    ctx.ev(idx, kind, "done")
+                else:
+                    ctx.ev(idx, kind, "n/a")
             elif kind == "make_prop":
                 prop = PopulationPropagator(axis, rate_matrix=rm)
                 K_at_make = Kmodel()
@@ -308,16 +330,31 @@ class World:
                     for t in range(1, Nt):
                         ref[t] = E.dot(ref[t - 1])
                     err = numpy.max(numpy.abs(pops - ref), axis=1)
+                    if a > 0.6:
+                        # yardstick for long steps: the truncation error the fourth-order expansion at the axis step really has
+                        Kd = K * dt
+                        T4 = numpy.eye(N) + Kd + Kd @ Kd / 2.0 + Kd @ Kd @ Kd / 6.0 + Kd @ Kd @ Kd @ Kd / 24.0
+                        t4 = numpy.zeros((Nt, N))
+                        t4[0] = p0
+                        for t in range(1, Nt):
+                            t4[t] = T4.dot(t4[t - 1])
+                        actual = numpy.max(numpy.abs(t4 - ref), axis=1)
+                        big = max(sc, float(numpy.max(numpy.abs(t4))))
+                        bound = numpy.minimum(bound, actual * (1.0 + 1e-6) + 1e-10 * big * (n + 1))
+                        ctx.probe("step_long_on_the_scale_of_the_rates")
                     if numpy.all(err <= bound):
                         ok_any = True
                         if len(cand) == 2:
                             semantics["live" if K is Know else "snapshot"] += 1
                         # conservation and non-negativity within the same bound
-                        check(numpy.all(numpy.abs(numpy.sum(pops, axis=1) - s0) <= 1e-12 * sc * (n + 1) * 4),
+                        amp = max(1.0, float(numpy.max(numpy.abs(pops))) / sc)      # intermediate growth at inadmissibly long steps
+                        check(numpy.all(numpy.abs(numpy.sum(pops, axis=1) - s0) <= 1e-12 * sc * amp * (n + 1) * 4),
                               "population-sum-conserved",
                               lambda: "sum drifts by %g" % numpy.max(numpy.abs(numpy.sum(pops, axis=1) - s0)))
-                        check(numpy.all(numpy.min(pops, axis=1) >= -bound), "population-nonnegative",
-                              lambda: "min population %g" % numpy.min(pops))
+                        if a <= 1.0:
+                            # non-negativity is promised for admissible step sizes only
+                            check(numpy.all(numpy.min(pops, axis=1) >= -bound), "population-nonnegative",
+                                  lambda: "min population %g" % numpy.min(pops))
                         break
                     worst = (float(numpy.max(err - bound)), float(numpy.max(err)))
                 check(ok_any, "propagate-matches-exponential",
